@@ -413,7 +413,7 @@ esl_ssi_FindSubseq(ESL_SSI *ssi, const char *key, int64_t requested_start,
   /* Look up the key by name.
    */
   if ((status = esl_ssi_FindName(ssi, key, ret_fh, ret_roff, ret_doff, ret_L)) != eslOK) goto ERROR;
-  if (requested_start < 0 || requested_start > *ret_L) { status = eslERANGE; goto ERROR; }
+  if (requested_start < 1 || requested_start > *ret_L) { status = eslERANGE; goto ERROR; }
 
   /* Do we have a data offset for this key? If not, we're case 4.    */
   /* Can we do fast subseq lookup on this file? If no, we're case 3. */
